@@ -97,7 +97,7 @@ PROPS = {
         streams=[ALGO, HIST],
         translators=["tables"],
         oracles=[dict(name="monotone", profiles=["debug"])],
-        assumptions=["Ward: monotonicity of sqrt on the raw heights is a hypothesis of the Ward theorem (partial); the other four methods are unconditional"],
+        assumptions=["single/complete/average/weighted: unconditional, any carrier. Ward: over an abstract carrier monotonicity of sqrt is a hypothesis; on binary64/binary32 it is proved (Flocq Bsqrt_correct; stdlib classical-real axioms) and the only hypothesis left is that no returned height is NaN"],
     ),
     "C20": dict(
         streams=[("alloc", ["release"])],
